@@ -19,6 +19,8 @@ def run(tier, seed):
     pack.assume('the anti-windup reset loop in TDS.init is summarised (it rewrites dae.f at pegged addresses only)',
                 'not decided: equilibrium of each dynamic model, power hand-over from static to dynamic generators, drift of an '
                 'undisturbed run, iterative initialisation (solve_iter_single)')
-    run_contracts(pack, [(T.test_init('C05'),), (T.tds_init('C05'),)])
+    run_contracts(pack, [(T.test_init('C05'), None, T.replay_test_init), (T.tds_init('C05'),)])
+    from contracts import fn_handover as H
+    run_contracts(pack, [(H.genbase_v_numeric('C05'), None, H.replay_genbase_v_numeric)])
     C18.run(tier, seed, prefix='C05', want=('SS',), pack=pack)
     return pack.finish()
